@@ -263,6 +263,7 @@ static std::string& ret_gstr(const Inst& I) { log_term(I); return g_str; }      
 static std::string& ret_same_str(const Inst& I, std::string& x) { log_term(I); return x; }                // non-const lvalue
 static std::runtime_error mk_std(const Inst& I) { log_term(I); return std::runtime_error("c8 T " + std::to_string(I.slot)); }
 static NonStd mk_nonstd(const Inst& I) { log_term(I); return NonStd{'T', I.slot, 0}; }
+static std::runtime_error mk_std_arg(int a) { return std::runtime_error("c8 T " + std::to_string(1000 + a)); }   // depends on the argument only
 
 static void reporter(trompeloeil::severity s, const char*, unsigned long, std::string const& msg) {
   if (RW && RW->in_call) RW->t.ev.push_back(Ev{s == trompeloeil::severity::fatal ? 'R' : 'N', -1, -1, cur_frame(), 0, 0});
@@ -328,7 +329,8 @@ static Outcome invoke(Mock& m, int fn, int arg, int depth, std::exception_ptr* e
 using ExpPtr = std::unique_ptr<trompeloeil::expectation>;
 using Maker = ExpPtr (*)(Mock&, const Inst&, std::size_t, std::size_t);
 enum ResKind { RK_VAL_DATA, RK_VAL_ARG, RK_REF_ARG, RK_REF_GLOBAL, RK_REF_CELL, RK_PTR_ARG, RK_PTR_GLOBAL, RK_PTR_CELL, RK_PTR_NULL, RK_VOID, RK_THROW_STD, RK_THROW_NONSTD,
-               RK_STR_GLOBAL, RK_STR_MAP, RK_STR_MEMBER, RK_STR_COPY, RK_STR_DATA, RK_STR_ARG, RK_VEC_GLOBAL, RK_VEC_MAP, RK_VEC_MEMBER, RK_VEC_COPY, RK_VEC_DATA };
+               RK_STR_GLOBAL, RK_STR_MAP, RK_STR_MEMBER, RK_STR_COPY, RK_STR_DATA, RK_STR_ARG, RK_VEC_GLOBAL, RK_VEC_MAP, RK_VEC_MEMBER, RK_VEC_COPY, RK_VEC_DATA,
+               RK_THROW_ARG };   // THROW of a value computed from _1 alone (the clause names nothing of its surroundings)
 static bool uses_retv(int rk) { return rk == RK_VAL_DATA || rk == RK_REF_CELL || rk == RK_PTR_CELL || rk == RK_STR_COPY || rk == RK_STR_DATA || rk == RK_VEC_COPY || rk == RK_VEC_DATA; }
 static bool names_lvalue_object(int rk) { return rk == RK_STR_GLOBAL || rk == RK_STR_MAP || rk == RK_STR_MEMBER || rk == RK_STR_ARG || rk == RK_VEC_GLOBAL || rk == RK_VEC_MAP || rk == RK_VEC_MEMBER; }
 struct TermInfo { int res; bool logged; };
@@ -433,6 +435,16 @@ struct Reg { explicit Reg(const SiteDesc& d) { sites().push_back(d); } };
 #define C8_TI_VTS {RK_THROW_STD, true}
 #define C8_TERM_VTN .LR_THROW(mk_nonstd(I))
 #define C8_TI_VTN {RK_THROW_NONSTD, true}
+// a THROW expression that names nothing but _1: every call must evaluate it afresh
+#define C8_TERM_VTA .THROW(mk_std_arg(_1))
+#define C8_TI_VTA {RK_THROW_ARG, false}
+#define C8_TERM_NTA .THROW(mk_std_arg(_1))
+#define C8_TI_NTA {RK_THROW_ARG, false}
+// a plain RETURN that moves from its (const, per-expectation) copy of a local: every call returns the same value
+#define C8_TERM_SCM .RETURN(std::move(copy))
+#define C8_TI_SCM {RK_STR_COPY, false}
+#define C8_TERM_XCM .RETURN(std::move(copyv))
+#define C8_TI_XCM {RK_VEC_COPY, false}
 #define C8_TERM_RA .RETURN(_1)
 #define C8_TI_RA {RK_REF_ARG, false}
 #define C8_TERM_RAL .RETURN(ret_same(I, _1))
@@ -646,6 +658,14 @@ SITE(sr, W3lpl, F1l, TWF, QA, AL1)
 SITE(sr, W1l, F2lp, FTW, QTN, REQ)
 SITE(sr, W2pl, F0, WF, QAL, T2)
 SITE(sr, W0, F1p, FTW, QA, AM2)
+SITE(v, W0, F1p, WF, VTA, ALLOW)
+SITE(v, W1p, F0, FW, VTA, T2)
+SITE(n, W0, F1p, WF, NTA, ALLOW)
+SITE(n, W1l, F2pl, IL, NTA, RT)
+SITE(s, W0, F1p, WF, SCM, ALLOW)
+SITE(s, W1p, F0, FW, SCM, T2)
+SITE(vec, W0, F1p, WF, XCM, ALLOW)
+SITE(vec, W1l, F0, IL, XCM, AM2)
 
 static const SiteDesc* find_site(const std::string& name) {
   for (auto& s : sites()) if (name == s.name) return &s;
@@ -817,6 +837,7 @@ struct Model {
       case RK_VEC_MEMBER: o.kind = O_VEC; o.sval = render(pristine_hvec()); break;
       case RK_VEC_COPY: case RK_VEC_DATA: o.kind = O_VEC; o.sval = render(data_vec(e.x->retv)); break;
       case RK_THROW_STD: o.kind = O_EXC_TERM_STD; o.slot = h; f.term_throw_std++; break;
+      case RK_THROW_ARG: o.kind = O_EXC_TERM_STD; o.slot = 1000 + arg; f.term_throw_std++; break;
       default: o.kind = O_EXC_TERM_NONSTD; o.slot = h; f.term_throw_nonstd++; break;
     }
     if (o.kind == O_REF) { f.ref_return = true; f.ref_returns++; }
